@@ -7,9 +7,12 @@ and the implementation is compared with that composition (class B, rounding-leve
 by the size of the exponent) — kind "corr".  Independently the property's own clauses are evaluated
 on the implementation's output against mpmath's gamma / loggamma / gammainc (kind "prop").
 """
-import math, random
+import math, random, sys
 from fractions import Fraction
 from common import *
+
+if hasattr(sys, "set_int_max_str_digits"):
+    sys.set_int_max_str_digits(0)     # the driver prints exact rationals with thousands of digits
 
 try:
     import mpmath
@@ -39,13 +42,18 @@ EPSF = 2.0 ** -53
 # tolerances (K in units of 2^-53 times the scale); calibrated on the unchanged tree, x16 safety
 K_FACT = 4            # |Factorial(n) - n!| <= (n/2+K) ulp-ish: chain of n roundings
 K_GLN = 64
-K_Q = 256
-K_REC = 64
+K_Q = 128
+K_REC = 128
 TOL_LN = 1e-12        # GammaLn vs loggamma: abs + rel
 TOL_A_SMALL = 1e-12   # a <= 100
 TOL_A_LARGE = 1e-3    # a > 100
 TOL_INV_SMALL = 1e-7
-TOL_BIG_BINOM = 1e-10
+# clauses of the a>100 (quadrature) branch carry their own names
+A100_Q = "a>100 quadrature branch: GammaQ/GammaP differs from the reference by more than 1e-3"
+A100_NAN = "a>100: Inv_GammaP/Inv_GammaQ returns NaN"
+A100_INV = "a>100: P(Inv_GammaP(p,a),a) differs from p by more than 1e-3"
+TOL_BIG_BINOM = 2e-11
+ULP_BINOM = 80        # "a few ulp" for n <= 170: three factorials of up to 170 roundings each, two divisions
 
 
 def ratio(ctx, clause, err, tol):
@@ -291,7 +299,7 @@ def glue_gln(x, lz):
 
 
 def model_Q(x, a, mt):
-    """from the driver's tokens: (branch, Q, P, abs-error scale) with the glue applied"""
+    """from the driver's tokens: (branch, Q, P, rounding scale S*core of the exponentiated part) with the glue applied"""
     br = mt[0]
     if br == "zero":
         return br, mpf(1), mpf(0), mpf(0)
@@ -303,8 +311,14 @@ def model_Q(x, a, mt):
     S = abs(M(x)) + abs(M(a) * lx) + sg + 4
     v = core * mpmath.exp(-M(x) + M(a) * lx - gln)
     if br == "series":
-        return br, 1 - v, v, 1 + S * v
-    return br, v, 1 - v, 1 + S * v
+        return br, 1 - v, v, S * v
+    return br, v, 1 - v, S * v
+
+
+def binom_tol(n, ex):
+    """few ulp for n<=170 (below one unit this forces the exact integer), 2e-11 relative for n>170"""
+    t = ULP_BINOM * 2 * EPS * ex if n <= 170 else Fraction(TOL_BIG_BINOM) * ex
+    return t if t >= 1 else Fraction(1, 2)
 
 
 def tolQ(a):
@@ -409,20 +423,14 @@ def _check(op, a, ti, mt, ctx, rq):
         n, k = int(a[0]), int(a[1]); v = fl(ti[0])
         ctx["binom"][(n, k)] = v
         ex = Fraction(math.comb(n, k)) if 0 <= k <= n else Fraction(0)
-        if n <= 170:
-            if ex < 2 ** 53:
-                if Fraction(v) != ex:
-                    out.append(fail("prop", "Binomial_Coefficient differs from the exact integer C(n,k)", "C(%d,%d)=%d got %r" % (n, k, ex, v)))
-            elif not ratio(ctx, "Binomial n<=170 beyond 2^53 to a few ulp", abs(Fraction(v) - ex), (3 * n / 2 + 8) * EPS * ex * 2):
-                out.append(fail("prop", "Binomial_Coefficient differs from C(n,k) beyond a few ulp", "C(%d,%d) got %r" % (n, k, v)))
-            if mt is not None and mt[0] != "big":
-                if fr(mt[0]) != ex:
-                    out.append(fail("corr", "model binomial (floor formula) is not C(n,k)", ""))
-                if len(ti) > 1 and len(mt) > 1 and int(ti[1]) != int(mt[1]):
-                    out.append(fail("corr", "Binomial_Coefficient: memo table size differs from the model", ""))
-        else:
-            if not ratio(ctx, "Binomial n>170 vs exact integer (1e-10 rel)", abs(Fraction(v) - ex), Fraction(TOL_BIG_BINOM) * ex + Fraction(1, 2) * (ex < 2 ** 40)):
-                out.append(fail("prop", "Binomial_Coefficient (n>170) differs from C(n,k) by more than 1e-10 relative", "C(%d,%d) got %r" % (n, k, v)))
+        if not ratio(ctx, "Binomial vs exact integer (n%s170)" % ("<=" if n <= 170 else ">"), abs(Fraction(v) - ex), binom_tol(n, ex)):
+            out.append(fail("prop", "Binomial_Coefficient differs from C(n,k) beyond " + ("a few ulp" if n <= 170 else "2e-11 relative"),
+                            "C(%d,%d)=%d got %r" % (n, k, ex, v)))
+        if n <= 170 and mt is not None and mt[0] != "big":
+            if fr(mt[0]) != ex:
+                out.append(fail("corr", "model binomial (floor formula) is not C(n,k)", ""))
+            if len(ti) > 1 and len(mt) > 1 and int(ti[1]) != int(mt[1]):
+                out.append(fail("corr", "Binomial_Coefficient: memo table size differs from the model", ""))
     elif op in ("c06.gammaln", "c06.gamma"):
         x = fl(a[0]); v = fl(ti[0])
         xm = M(Fraction(x))
@@ -459,14 +467,15 @@ def _check(op, a, ti, mt, ctx, rq):
         X, S = Fraction(x), Fraction(s)
         want = {"c06.pser": "series", "c06.qcf": "cf", "c06.qint": "quad"}[op]
         rf = ref_P(X, S) if op == "c06.pser" else ref_Q(X, S)
-        tol = TOL_A_LARGE if op == "c06.qint" else TOL_A_SMALL
-        if math.isnan(v) or not ratio(ctx, op[4:] + " vs mpmath.gammainc", abs(mpf(v) - rf), tol):
-            out.append(fail("prop", "Gamma%s disagrees with the reference incomplete gamma function" % {"c06.pser": "Pser", "c06.qcf": "Qcf", "c06.qint": "Qint"}[op],
+        lxs = abs(M(S) * mpmath.log(M(X))) + M(X) + abs(mpmath.loggamma(M(S)))
+        tol = TOL_A_LARGE if op == "c06.qint" else (TOL_A_SMALL if s <= 100 else K_Q * EPSF * (1 + lxs))
+        if math.isnan(v) or not ratio(ctx, op[4:] + " vs mpmath.gammainc" + (" (a>100)" if s > 100 else ""), abs(mpf(v) - rf), tol):
+            out.append(fail("prop", A100_Q if op == "c06.qint" else "Gamma%s disagrees with the reference incomplete gamma function" % {"c06.pser": "Pser", "c06.qcf": "Qcf"}[op],
                             "x=%r a=%r got %r ref %s" % (x, s, v, mpmath.nstr(rf, 17))))
         if mt is not None and mt[0] == want and want != "quad":
             br, q, p, sc = model_Q(X, S, mt)
             m = p if op == "c06.pser" else q
-            if not ratio(ctx, op[4:] + " vs rational core + glue (B)", abs(mpf(v) - m), K_Q * EPSF * (sc - 1) + mpf(5e-324)):
+            if not ratio(ctx, op[4:] + " vs rational core + glue (B)", abs(mpf(v) - m), K_Q * EPSF * sc + mpf(5e-324)):
                 out.append(fail("corr", "%s differs from the model recurrence beyond rounding" % op[4:], "x=%r a=%r got %r model %s" % (x, s, v, mpmath.nstr(m, 20))))
     elif op in ("c06.gammaq", "c06.gammap", "c06.uplow"):
         x, s = fl(a[0]), fl(a[1])
@@ -488,7 +497,7 @@ def _check(op, a, ti, mt, ctx, rq):
                 else:
                     bump(ctx, "quadrature branch: value outside [0,1] within its 1e-3 accuracy")
             if not ratio(ctx, "Gamma%s vs mpmath.gammainc (a%s100)" % (nm, "<=" if s <= 100 else ">"), abs(mpf(val) - rf), tol):
-                out.append(fail("prop", "Gamma%s disagrees with the reference beyond %g" % (nm, tol), "x=%r a=%r got %r ref %s" % (x, s, val, mpmath.nstr(rf, 17))))
+                out.append(fail("prop", A100_Q if s > 100 else "Gamma%s disagrees with the reference beyond 1e-12 (a<=100)" % nm, "x=%r a=%r got %r ref %s" % (x, s, val, mpmath.nstr(rf, 17))))
         if op == "c06.uplow":
             if not ratio(ctx, "P+Q=1", abs(Fraction(P) + Fraction(Q) - 1), 2 * EPS):
                 out.append(fail("prop", "GammaP + GammaQ is not 1", "x=%r a=%r P=%r Q=%r" % (x, s, P, Q)))
@@ -504,7 +513,7 @@ def _check(op, a, ti, mt, ctx, rq):
                     out.append(fail("prop", "GammaQ(0,a) is not 1 / GammaP(0,a) is not 0", ""))
             elif br != "quad":
                 for nm, val, m in (("Q", Q, q), ("P", P, p)):
-                    if val is not None and not ratio(ctx, "Gamma%s vs rational core + glue (B, %s)" % (nm, br), abs(mpf(val) - m), K_Q * EPSF * sc):
+                    if val is not None and not ratio(ctx, "Gamma%s vs rational core + glue (B, %s)" % (nm, br), abs(mpf(val) - m), K_Q * EPSF * (1 + sc)):
                         out.append(fail("corr", "Gamma%s differs from the model (%s branch) beyond rounding" % (nm, br),
                                         "x=%r a=%r got %r model %s" % (x, s, val, mpmath.nstr(m, 20))))
             # class A on the branch: the value must be bit-identical to the evaluator the model selects
@@ -512,7 +521,10 @@ def _check(op, a, ti, mt, ctx, rq):
                 sel = {"series": qser, "cf": qcf, "quad": qint}[br]
                 got = Q if Q is not None else P
                 want = sel if Q is not None else 1.0 - sel
-                if not math.isnan(sel) and got != want:
+                knife = br in ("series", "cf") and ((x < s + 1.0) != (X < S + 1))   # a+1.0 rounds in double
+                if knife:
+                    ctx["excused"] += 1
+                elif not math.isnan(sel) and got != want:
                     others = [n for n, w in (("series", qser), ("cf", qcf), ("quad", qint))
                               if not math.isnan(w) and (w if Q is not None else 1.0 - w) == got]
                     out.append(fail("corr", "GammaQ takes another branch than the model (%s expected%s)" % (br, ", value is that of " + others[0] if others else ""),
@@ -532,7 +544,7 @@ def _check(op, a, ti, mt, ctx, rq):
         else:
             S = Fraction(s)
             if math.isnan(x) or x < 0 or math.isinf(x):
-                out.append(fail("prop", "Inv_GammaP returns no non-negative number", "p=%r a=%r got %r" % (p, s, x)))
+                out.append(fail("prop", A100_NAN if (s > 100 and math.isnan(x)) else "Inv_GammaP returns no non-negative number", "p=%r a=%r got %r" % (p, s, x)))
                 return out
             if not normal_preimage(p, S):
                 ctx["excused"] += 1
@@ -540,10 +552,10 @@ def _check(op, a, ti, mt, ctx, rq):
                 return out
             tol = TOL_INV_SMALL if s <= 100 else TOL_A_LARGE
             if not ratio(ctx, "P(Inv_GammaP(p,a),a)=p (a%s100)" % ("<=" if s <= 100 else ">"), abs(Px - p), tol):
-                out.append(fail("prop", "P(Inv_GammaP(p,a),a) differs from p by more than %g" % tol, "p=%r a=%r x=%r P(x)=%r" % (p, s, x, Px)))
+                out.append(fail("prop", A100_INV if s > 100 else "P(Inv_GammaP(p,a),a) differs from p by more than 1e-7 (a<=100)", "p=%r a=%r x=%r P(x)=%r" % (p, s, x, Px)))
             rp_ = ref_P(Fraction(x), S)
             if not ratio(ctx, "Pref(Inv_GammaP(p,a),a)=p (a%s100)" % ("<=" if s <= 100 else ">"), abs(rp_ - mpf(p)), tol + tolQ(s)):
-                out.append(fail("prop", "reference P at Inv_GammaP(p,a) differs from p by more than %g" % tol, "p=%r a=%r x=%r Pref(x)=%s" % (p, s, x, mpmath.nstr(rp_, 17))))
+                out.append(fail("prop", A100_INV if s > 100 else "reference P at Inv_GammaP(p,a) differs from p by more than 1e-7 (a<=100)", "p=%r a=%r x=%r Pref(x)=%s" % (p, s, x, mpmath.nstr(rp_, 17))))
     return out
 
 
@@ -566,16 +578,15 @@ def finalize(ctx, exe):
         if not (0 <= k <= n):
             continue
         w = B.get((n, n - k))
-        big = n > 170
-        if w is not None and not ratio(ctx, "binomial symmetry" + (" n>170" if big else ""), abs(Fraction(v) - Fraction(w)),
-                                       Fraction(v) * (Fraction(2 * TOL_BIG_BINOM) if big else (3 * n + 16) * EPS) if v >= 2 ** 53 else Fraction(1, 2)):
+        ex = Fraction(math.comb(n, k))
+        big = " (n>170)" if n > 170 else " (n<=170)"
+        if w is not None and not ratio(ctx, "binomial symmetry" + big, abs(Fraction(v) - Fraction(w)), 2 * binom_tol(n, ex)):
             out.append(dict(fail("prop", "Binomial_Coefficient is not symmetric: C(n,k) != C(n,n-k)", "n=%d k=%d %r vs %r" % (n, k, v, w)), req="c06.binom %d %d" % (n, k)))
         if n >= 1 and 1 <= k <= n - 1:
             u1, u2 = B.get((n - 1, k - 1)), B.get((n - 1, k))
             if u1 is not None and u2 is not None:
-                big = n > 170
-                if not ratio(ctx, "Pascal's rule" + (" n>170" if big else ""), abs(Fraction(v) - Fraction(u1) - Fraction(u2)),
-                             Fraction(v) * (Fraction(3 * TOL_BIG_BINOM) if big else (6 * n + 32) * EPS) if v >= 2 ** 53 else Fraction(1, 2)):
+                big = " (n>170)" if n > 170 else " (n<=170)"
+                if not ratio(ctx, "Pascal's rule" + big, abs(Fraction(v) - Fraction(u1) - Fraction(u2)), 2 * binom_tol(n, ex) + (0 if ex < 2 ** 52 else 2 * EPS * ex)):
                     out.append(dict(fail("prop", "Pascal's rule violated: C(n,k) != C(n-1,k-1)+C(n-1,k)", "n=%d k=%d" % (n, k)), req="c06.binom %d %d" % (n, k)))
     # Gamma(x+1) = x Gamma(x), GammaLn(x+1) = GammaLn(x) + log x
     for x, r0, r1, l0, l1 in ctx["recur"]:
